@@ -51,10 +51,11 @@ pub fn check(c: &LCase, st: &mut Stats) -> Result<(), String> {
     let (events, hal_log) = with(|w| (w.dev.ev.clone(), w.hal.log.clone()));
     let sets: Vec<&Ev> = events.iter().filter(|e| matches!(e, Ev::QueueSet { .. })).collect();
     let allocs = hal_log.iter().filter(|e| matches!(e, HalEv::Alloc(_) | HalEv::AllocFailed { .. })).count();
-    let n_alloc_expected = if c.legacy { 1 } else { 2 };
     let too_small = (c.max as u64) < n;
     let refused = c.in_use || too_small;
-    let dma_fails = c.fail != 0 && (c.fail as usize) <= n_alloc_expected;
+    // How many allocations back a queue is the implementation's choice; whether the injected
+    // failure was reached is read off the platform's log, not predicted.
+    let dma_fails = hal_log.iter().any(|e| matches!(e, HalEv::AllocFailed { .. }));
     let mut sig = Sig::new();
     sig.add(c.log2 as u64).add(c.legacy as u64).add(c.indirect as u64).add(c.event_idx as u64).add(c.ap as u64);
     sig.add(c.in_use as u64).add(c.max as u64).add(c.fail as u64).add(c.base);
@@ -166,12 +167,10 @@ pub fn check(c: &LCase, st: &mut Stats) -> Result<(), String> {
             return Err(format!("legacy layout: avail {:#x} (want {:#x}), used {:#x} (want {:#x})", a, want_a, u, want_u));
         }
     } else {
-        if alloc_idx.len() != 2 {
-            return Err(format!("modern layout made {} DMA allocations, expected 2", alloc_idx.len()));
-        }
-        let dirs: Vec<Dir> = with(|w| alloc_idx.iter().map(|&i| w.hal.regions[i].dir).collect());
-        if !(dirs.contains(&Dir::ToDev) && dirs.contains(&Dir::FromDev)) {
-            return Err(format!("modern layout allocation directions {:?}, expected one driver-to-device and one device-to-driver", dirs));
+        // Any number of regions will do as long as every area lies in one whose direction
+        // permits the device's accesses (checked per area above).
+        if alloc_idx.is_empty() {
+            return Err("queue created without any DMA allocation".into());
         }
     }
     // release
@@ -223,6 +222,9 @@ pub struct RealCase {
 
 struct RealRun<'a> {
     c: &'a RealCase,
+    /// the areas the queue code hands to `Transport::queue_set` for this size, flags and DMA
+    /// placement, observed on the recording transport
+    want: (u64, u64, u64),
 }
 
 impl crate::tkind::WithT for RealRun<'_> {
@@ -248,14 +250,8 @@ impl crate::tkind::WithT for RealRun<'_> {
         let regions: Vec<(u64, usize, Dir)> = with(|w| {
             w.hal.log[log0..].iter().filter_map(|e| if let HalEv::Alloc(i) = e { Some((w.hal.regions[*i].paddr, w.hal.regions[*i].len, w.hal.regions[*i].dir)) } else { None }).collect()
         });
-        let (want_d, want_a, want_u) = if legacy {
-            let Some(r) = regions.first() else { return Err("no DMA allocation".into()) };
-            (r.0, r.0 + 16 * n, align_page(r.0 + 16 * n + 6 + 2 * n))
-        } else {
-            let to = regions.iter().find(|r| r.2 == Dir::ToDev).ok_or("no driver-to-device DMA region")?;
-            let from = regions.iter().find(|r| r.2 == Dir::FromDev).ok_or("no device-to-driver DMA region")?;
-            (to.0, to.0 + 16 * n, from.0)
-        };
+        let _ = &regions;
+        let (want_d, want_a, want_u) = self.want;
         let told = with(|w| w.dev.queue(0).clone());
         if !told.ready || told.size as u64 != n || told.desc != want_d || told.avail != want_a || told.used != want_u {
             return Err(format!(
@@ -283,12 +279,39 @@ impl crate::tkind::WithT for RealRun<'_> {
 }
 
 pub fn check_real(c: &RealCase, st: &mut Stats) -> Result<(), String> {
+    // reference: what the queue passes to queue_set (allocation is deterministic given the base)
+    world::reset();
+    with(|w| {
+        w.dev.legacy = c.kind.legacy();
+        w.dev.default_max = 65536;
+        w.dev.status = 0xb;
+        w.hal.next_dma = c.base;
+    });
+    let want = {
+        let mut mt = MTransport::new();
+        let q = match guard(|| new_queue(c.log2, &mut mt, 0, c.indirect, c.event_idx, false)) {
+            Caught::Ok(Ok(q)) => q,
+            Caught::Ok(Err(e)) => return Err(format!("{:?}: creation failed with {:?}", c, e)),
+            Caught::Panic(p) => return Err(format!("{:?}: queue creation panicked: {}", c, p.render())),
+            Caught::Escape(e) => return Err(format!("{:?}: {:?}", c, e)),
+        };
+        let set = with(|w| w.dev.ev.iter().find_map(|e| if let Ev::QueueSet { desc, avail, used, .. } = e { Some((*desc, *avail, *used)) } else { None }));
+        let _ = guard(move || {
+            mt.queue_unset(0);
+            drop(q);
+            drop(mt);
+        });
+        match set {
+            Some(s) => s,
+            None => return Err(format!("{:?}: queue created without a queue_set call", c)),
+        }
+    };
     world::reset();
     with(|w| {
         w.dev.default_max = 65536;
         w.dev.offered = 1 << 32 | 1 << 28 | 1 << 29;
     });
-    crate::tkind::with_transport(c.kind, 4, 0, RealRun { c }).map_err(|m| format!("{:?}: {}", c, m))?.map_err(|m| format!("{:?} size {} base {:#x}: {}", c.kind, 1u32 << c.log2, c.base, m))?;
+    crate::tkind::with_transport(c.kind, 4, 0, RealRun { c, want }).map_err(|m| format!("{:?}: {}", c, m))?.map_err(|m| format!("{:?} size {} base {:#x}: {}", c.kind, 1u32 << c.log2, c.base, m))?;
     st.class("registered_through_real_transport");
     let n = 1u64 << c.log2;
     let crosses = (c.base >> 32) != ((c.base + 16 * n + 6 + 2 * n + 4096 + 6 + 8 * n) >> 32);
